@@ -22,7 +22,9 @@ def build(ctx):
     for pid, rx in SELECT.items():
         mod = importlib.import_module(pid)
         before = len(ctx.queries)
+        real_tier, ctx.tier = ctx.tier, "quick"    # hosts always contribute their quick sets; thorough = all of them
         mod.build(ctx)
+        ctx.tier = real_tier
         units += ctx.units
         funcs += ctx.functions
         new = ctx.queries[before:]
